@@ -19,9 +19,10 @@ NCodes == 2 * 2 * 2 * 6
 \* code = ((b * 2 + r) * 2 + f) * 6 + (k - 1):  b, r, f in {0, 1}, k index into Margins
 Fields(c) == [b |-> c \div 24, r |-> (c \div 12) % 2, f |-> (c \div 6) % 2, d |-> Margins[(c % 6) + 1]]
 ModeOf(c) == LET x == Fields(c)
-             IN [br |-> 32 * (x.b + 1), rate |-> 100 * (x.r + 1), fits |-> x.f = 1,
+             IN [br |-> IF x.b = 0 THEN 63 ELSE 66,    \* two baud rates, close to each other: only their order matters
+                 rate |-> 100 * (x.r + 1), fits |-> x.f = 1,
                  worst |-> IF x.d = PenInf THEN -Inf ELSE 20000000 + x.d * 1000000,
-                 thr |-> 20000000,
+                 thr |-> 20000000, osnr |-> 18000000,
                  tx |-> 100 + 10 * x.r + x.b, code |-> c]
 
 LibsOver(codes) == {[i \in DOMAIN s |-> ModeOf(s[i])] :
@@ -44,15 +45,21 @@ MCStageConfigs == {MCDefaultStages,
 MCRoutes == {1, 2}
 MCCarriers == {1, 2}
 MCMixed == (1 :> 30) @@ (2 :> 6000)          \* the first carrier has the better transmitter
-Sc(s, r, f, sp) == [stages |-> s, routes |-> r, flags |-> f, spectrum |-> sp]
+\* SI entries as listed; the default one (margin 2 dB, baked in thr = osnr + 2 dB) is the only / the first unmarked /
+\* the marked one listed last
+SI(d, m) == [dflt |-> d, margin |-> m]
+MCSIFile == <<SI(TRUE, 2000000)>>
+MCSIConfigs == {MCSIFile, <<SI(FALSE, 2000000), SI(FALSE, 6000000)>>, <<SI(FALSE, 6000000), SI(TRUE, 2000000)>>}
+Sc(s, r, f, sp) == [stages |-> s, routes |-> r, flags |-> f, spectrum |-> sp, si |-> MCSIFile]
 MCScenarios(l) ==
   IF Len(l) <= WideModes
   THEN {Sc(s, <<1>>, <<>>, <<>>) : s \in MCStageConfigs}
        \cup {Sc(MCDefaultStages, <<a, b>>, <<>>, <<>>) : a, b \in MCRoutes}
        \cup {Sc(MCDefaultStages, <<1, 1>>, f, <<>>) : f \in {<<TRUE, FALSE>>, <<FALSE, TRUE>>}}
        \cup {Sc(MCDefaultStages, <<1>>, <<>>, MCMixed)}
+       \cup {[Sc(MCDefaultStages, <<1>>, <<>>, <<>>) EXCEPT !.si = x] : x \in MCSIConfigs}
   ELSE {Sc(MCDefaultStages, <<1>>, <<>>, <<>>)}
-MCLineInv == (32 :> 3000) @@ (64 :> 5000)
+MCLineInv == (63 :> 3000) @@ (66 :> 5000)
 MCRevMargins == {-1000000, 0, 1000000, -Inf}
 
 \* B2: one JSON line per library: the modes and, computed by the specification, the set of acceptable outcomes
@@ -77,5 +84,6 @@ WitnessTags == /\ (~WitnessProfileZero => PrintT("@@" \o ToJson("ProfileZero")))
                /\ (~WitnessSameRoute => PrintT("@@" \o ToJson("SameRoute")))
                /\ (~WitnessMixedSpectrum => PrintT("@@" \o ToJson("MixedSpectrum")))
                /\ (~WitnessMixedFlags => PrintT("@@" \o ToJson("MixedFlags")))
+               /\ ((Done /\ Len(si) = 2 /\ ~si[1].dflt /\ ~si[2].dflt) => PrintT("@@" \o ToJson("NamedSI")))
 WitnessUnjudgedPick == ~(Done /\ out.block = NoBlock /\ out.sel # 0 /\ Unjudged(lib[out.sel]))
 ==============================================================================
